@@ -239,10 +239,14 @@ def run_injection(lib, variant, ck, case):
                           bucket='reset-twice')
       elif bp >= 0:
         reached = True
-        if w[W['pos'], 1] < 1:
+        ref_acc = bool(warn_view(lib, ref)[W['acc'], 1])
+        if w[W['pos'], 1] < 1 and not (w[W['acc'], 1] and ref_acc):
+          # (exception: the reset state itself diverges -> BADQACC resets again and clears the BADQPOS counter)
           raise Violation('qpos[%d] was bad before the step but BADQPOS was not raised [variant=%s]' % (bp, variant),
                           bucket='missing-BADQPOS')
-        if w[W['pos'], 0] != bp:
+        if w[W['pos'], 1] < 1:
+          labels.append('reset-state-diverges')
+        elif w[W['pos'], 0] != bp:
           raise Violation('BADQPOS lastinfo=%d, first bad index is %d' % (w[W['pos'], 0], bp), bucket='lastinfo-BADQPOS')
         if not same_bits(st1, refbits):
           raise Violation('after BADQPOS the data is not (reset state stepped once) [variant=%s]' % variant,
@@ -254,10 +258,14 @@ def run_injection(lib, variant, ck, case):
                           bucket='reset-twice')
       elif bv >= 0:
         reached = True
-        if w[W['vel'], 1] < 1:
+        ref_acc = bool(warn_view(lib, ref)[W['acc'], 1])
+        if w[W['vel'], 1] < 1 and not (w[W['acc'], 1] and ref_acc):
+          # (exception: the reset state itself diverges -> BADQACC resets again and clears the BADQVEL counter)
           raise Violation('qvel[%d] was bad before the step but BADQVEL was not raised [variant=%s]' % (bv, variant),
                           bucket='missing-BADQVEL')
-        if w[W['vel'], 0] != bv:
+        if w[W['vel'], 1] < 1:
+          labels.append('reset-state-diverges')
+        elif w[W['vel'], 0] != bv:
           raise Violation('BADQVEL lastinfo=%d, first bad index is %d' % (w[W['vel'], 0], bv), bucket='lastinfo-BADQVEL')
         if not same_bits(st1, refbits):
           raise Violation('after BADQVEL the data is not (reset state stepped once) [variant=%s]' % variant,
@@ -297,7 +305,12 @@ def run_injection(lib, variant, ck, case):
               raise Violation('bad ctrl: result differs from the same step with ctrl = 0 [variant=%s]' % variant,
                               bucket='badctrl-zero')
             # ctrl itself is an input and must not be modified by the engine (documented: "local copy")
-      finite_state('autoreset on')
+      if ref is not None and warn_view(lib, ref)[W['acc'], 1]:
+        # the model is ill-posed at its own reset state (a fresh mjData stepped once already raises BADQACC, e.g. a
+        # singular inertia matrix): resetting cannot produce finite values; counted, not judged for finiteness
+        labels.append('reset-state-diverges')
+      else:
+        finite_state('autoreset on')
     else:
       did_reset = False
       if bp >= 0:
@@ -357,6 +370,9 @@ def run_unstable(lib, variant, ck, case, nsteps):
       d.ctrl[:] = np.asarray(d.ctrl) * cscale
     ctrl0 = np.asarray(d.ctrl, dtype=np.float64).copy()
     lib.mj_step(m, ref)
+    if np.any(warn_view(lib, ref)[W, 1]):
+      ck.discard('unstable:ill-posed-reset-state')
+      return
     refbits = state_bits(ref)
     dt = float(m.opt.timestep)
     resets = 0
